@@ -139,6 +139,7 @@ class MediaRigBase:
         rr.queue = types.SimpleNamespace(Queue=TapQueue, Empty=self._saved[4][2].Empty)
         rr.threading = types.SimpleNamespace(Thread=NoThread)
         self.decoded = []
+        self.decoded_plis = []  # number of PLIs seen on the wire when each item was handed to the decoder
         self.handler_error_list = []
         self.loop_exceptions = []
         self.loop.set_exception_handler(self._loop_exception)
@@ -147,9 +148,11 @@ class MediaRigBase:
     def _decoder_tap(self, item):
         if item is None:
             self.decoded.append(None)
+            self.decoded_plis.append(len(getattr(self, "plis", ())))
         else:
             codec, frame = item
             self.decoded.append((codec.name, frame.data, frame.timestamp))
+            self.decoded_plis.append(len(getattr(self, "plis", ())))
 
     def _loop_exception(self, loop, context):
         self.loop_exceptions.append({"message": context.get("message"), "exception": repr(context.get("exception"))[:200]})
